@@ -19,6 +19,7 @@ type Case struct {
 	Files map[string]string // path relative to the case root -> content; {{ROOT}} = import path of the root package, {{CASE}} = directory name
 	Drive bool              // root package has VerifDrive(): compile, link and run it when wire accepts
 	Build bool              // compile the case (default tags) when wire accepts, even without a driver
+	ExtraBuild []string     // further packages of the case (relative paths) compiled along with the root
 	Judge func(r *Result) []Violation
 	Meta  interface{}
 	Dir   string // assigned by the runner
@@ -690,6 +691,9 @@ func (rn *Runner) compileAndRun(mod string, results []*Result) {
 				fmt.Fprintf(&sb, "\t%s %q\n", r.Case.Dir, ModPath+"/"+r.Case.Dir)
 			} else {
 				fmt.Fprintf(&sb, "\t_ %q\n", ModPath+"/"+r.Case.Dir)
+			}
+			for _, x := range r.Case.ExtraBuild {
+				fmt.Fprintf(&sb, "\t_ %q\n", ModPath+"/"+r.Case.Dir+"/"+x)
 			}
 		}
 		sb.WriteString(")\n\nfunc run(name string, f func()) {\n\tdefer func() {\n\t\tif r := recover(); r != nil {\n\t\t\tprintln(\"V|PANIC\", name)\n\t\t}\n\t}()\n\tf()\n}\n\nfunc main() {\n")
